@@ -70,6 +70,12 @@ def compile_text(text, today=dt.date(2024, 6, 1), want_tree=True):
             res["notes"] = [note_tuple(n) for n in page.notes]
         except Exception as e:  # noqa: BLE001
             res["status"] = type(e).__name__
+            import traceback
+            site = None
+            for fr in traceback.extract_tb(e.__traceback__):
+                if "/zorg/" in fr.filename and "/grammar/" not in fr.filename:
+                    site = fr.name
+            res["site"] = site
         finally:
             antlr4.ParseTreeWalker.walk = orig_walk
         if "tree" in captured:
